@@ -1,6 +1,7 @@
 import Rare.Proofs.C09Errors
 import Rare.Proofs.C09Digits
-/-! C09: a printed expression tree compiles to stages that evaluate as the tree dictates. -/
+/-! C09: a printed expression tree as a layout of pieces; what the splitter returns for a printed statement.
+    (The compile half – optimiser on or off – is `Rare/Proofs/C09C10.lean`.) -/
 namespace Rare.C09
 open Rare Rare.Expr
 
@@ -58,10 +59,28 @@ theorem argLayout_values (σ : Style) : ∀ (l : List C09.Expr) (i : Nat),
     simp only [argLayout, argStrings, List.map_cons, argPiece_value]
     rw [argLayout_values σ rest (i + 1)]
 
-theorem allSpace_ws (l : List Bool) : allSpace (ws l) = true := by
+theorem isSpace_wsChar (n : Nat) : isSpace (wsChar n) = true := by
+  have h : ∀ k, k < 25 → isSpace (spaceRunes.getD k ' ') = true := by decide
+  exact h (n % 25) (Nat.mod_lt _ (by decide))
+
+theorem allSpace_ws (l : WsRun) : allSpace (ws l) = true := by
   simp only [allSpace, ws, List.all_map, List.all_eq_true]
   intro b _
-  cases b <;> decide
+  exact isSpace_wsChar b
+
+/-- Every `White_Space` rune is one of the 25 a style can name. -/
+theorem wsChar_complete (c : Char) (h : isSpace c = true) : ∃ n, wsChar n = c := by
+  have hc : c = Char.ofNat c.toNat := by simp
+  have hn : c.toNat ∈ [0x20, 9, 10, 11, 12, 13, 0x85, 0xA0, 0x1680, 0x2000, 0x2001, 0x2002, 0x2003, 0x2004, 0x2005,
+      0x2006, 0x2007, 0x2008, 0x2009, 0x200a, 0x2028, 0x2029, 0x202f, 0x205f, 0x3000] := by
+    simp only [isSpace, Bool.or_eq_true, Bool.and_eq_true, decide_eq_true_eq, beq_iff_eq] at h
+    simp only [List.mem_cons, List.not_mem_nil, or_false]
+    omega
+  have key : ∀ k ∈ [0x20, 9, 10, 11, 12, 13, 0x85, 0xA0, 0x1680, 0x2000, 0x2001, 0x2002, 0x2003, 0x2004, 0x2005,
+      0x2006, 0x2007, 0x2008, 0x2009, 0x200a, 0x2028, 0x2029, 0x202f, 0x205f, 0x3000],
+      ∃ n, n < 25 ∧ wsChar n = Char.ofNat k := by decide
+  obtain ⟨n, _, hn'⟩ := key _ hn
+  exact ⟨n, by rw [hn', ← hc]⟩
 
 theorem bare_decimal (n : Nat) : bare (decimal n) = true := by
   have hd : ∀ d, d < 10 → (!special (digitChar d) && !isSpace (digitChar d)) = true := by decide
@@ -159,25 +178,6 @@ theorem depth_pos (e : C09.Expr) : 1 ≤ depth e := by cases e <;> simp [depth]
 section
 variable (reg : Registry) (fn : List Char → List Bytes → Bytes)
 
-theorem compileF_plain (fuel : Nat) (s : List Char) (h : plain s = true) :
-    compileF (fuel + 1) reg false s = .ok (litStages s, []) := by
-  obtain ⟨j, hj⟩ := loop_inert fuel reg false s s [] 0 ⟨[], [], [], 0, 0⟩ (plain_inert h)
-  rw [List.append_nil, loop_nil] at hj
-  rw [compileF_eq, hj]
-  simp [finishC, litStages, utf8_eq]
-
-/-- A braced statement with a single word: a variable reference. -/
-theorem compileF_var (fuel : Nat) (σ : Style) (w : List Char) (h : bare w = true) :
-    compileF (fuel + 1) reg false ('{' :: ((ws (σ []).lead ++ w ++ ws (σ []).trail) ++ ['}'])) =
-      .ok ([stageSimpleVariable w], []) := by
-  have hl : LayoutOk true [(ws (σ []).lead, Piece.bare w)] := ⟨allSpace_ws _, Or.inl rfl, h, trivial⟩
-  have hin : Inner (ws (σ []).lead ++ w ++ ws (σ []).trail) := by
-    have := inner_append (inner_layout _ true hl) (inner_of_plain (plain_of_space (allSpace_ws (σ []).trail)))
-    simpa [layout, Piece.text] using this
-  obtain ⟨j, hj⟩ := compileF_braced fuel reg false hin
-  rw [hj, close_var fuel reg false _ j ⟨[], [], _, 0, 1⟩ w (split_word σ w h)]
-  simp [finishC]
-
 theorem run_seq_nil (ctx : Ctx) : (seqStages []).run ctx = .ok [] := rfl
 
 theorem run_seq_cons (s : Stage) (r : List Stage) (ctx : Ctx) (a : Bytes) (b : List Bytes)
@@ -188,94 +188,6 @@ theorem run_seq_cons (s : Stage) (r : List Stage) (ctx : Ctx) (a : Bytes) (b : L
   simp only []
   rw [run_bind, hb]
   rfl
-
-theorem run_single (s : Stage) (ctx : Ctx) :
-    (joinStages [s]).run ctx = s.run ctx ∧ (buildKey [s]).run ctx = s.run ctx :=
-  ⟨rfl, run_concat_single s ctx⟩
-
-mutual
-theorem arg_ok : ∀ (e : C09.Expr) (σ : Style) (fuel : Nat), Admissible e → RegOk reg fn e → depth e ≤ fuel →
-    ∃ stages, compileF fuel reg false (argString σ e) = .ok (stages, []) ∧
-      ∀ ctx, (joinStages stages).run ctx = .ok (evalTree (envOf ctx fn) e) ∧
-             (buildKey stages).run ctx = .ok (evalTree (envOf ctx fn) e)
-  | .lit s, σ, fuel, ha, _, hd => by
-    obtain ⟨g, rfl⟩ : ∃ g, fuel = g + 1 := ⟨fuel - 1, by simp [depth] at hd; omega⟩
-    simp only [Admissible] at ha
-    refine ⟨litStages s, compileF_plain reg g s ha, fun ctx => ?_⟩
-    have := run_litStages s ctx
-    simp only [evalTree]
-    exact ⟨this.2, this.1⟩
-  | .group n, σ, fuel, ha, _, hd => by
-    obtain ⟨g, rfl⟩ : ∃ g, fuel = g + 1 := ⟨fuel - 1, by simp [depth] at hd; omega⟩
-    simp only [Admissible] at ha
-    refine ⟨[stageSimpleVariable (decimal n)], ?_, fun ctx => ?_⟩
-    · rw [argString, printArg_stmt σ _ (by intro s h; cases h)]
-      exact compileF_var reg g σ (decimal n) (bare_decimal n)
-    · have hs : stageSimpleVariable (decimal n) = Comp.match_ (n : Int) := by
-        simp [stageSimpleVariable, utf8_eq, atoi_decimal n ha]
-      have hr : (stageSimpleVariable (decimal n)).run ctx = .ok (evalTree (envOf ctx fn) (.group n)) := by
-        rw [hs]; rfl
-      have := run_single (stageSimpleVariable (decimal n)) ctx
-      rw [this.1, this.2, hr]; exact ⟨rfl, rfl⟩
-  | .key k, σ, fuel, ha, _, hd => by
-    obtain ⟨g, rfl⟩ : ∃ g, fuel = g + 1 := ⟨fuel - 1, by simp [depth] at hd; omega⟩
-    simp only [Admissible] at ha
-    refine ⟨[stageSimpleVariable k], ?_, fun ctx => ?_⟩
-    · rw [argString, printArg_stmt σ _ (by intro s h; cases h)]
-      exact compileF_var reg g σ k ha.1
-    · have hs : stageSimpleVariable k = Comp.key (utf8 k) := by
-        simp [stageSimpleVariable, utf8_eq, ha.2]
-      have hr : (stageSimpleVariable k).run ctx = .ok (evalTree (envOf ctx fn) (.key k)) := by
-        rw [hs]; rfl
-      have := run_single (stageSimpleVariable k) ctx
-      rw [this.1, this.2, hr]; exact ⟨rfl, rfl⟩
-  | .call f args, σ, fuel, ha, hreg, hd => by
-    obtain ⟨g, rfl⟩ : ∃ g, fuel = g + 1 := ⟨fuel - 1, by simp [depth] at hd; omega⟩
-    have hd' : depthArgs args ≤ g := by simp [depth] at hd; omega
-    have hsplit := split_call σ f args ha
-    have hpiece := argPiece_ok (.call f args) σ ha
-    simp only [Admissible] at ha
-    simp only [RegOk] at hreg
-    obtain ⟨cargs, hc, hrun⟩ := args_ok args σ 0 g ha.2.2 hreg.2 hd'
-    cases args with
-    | nil => exact absurd rfl ha.2.1
-    | cons a rest =>
-      let stage : Stage := (seqStages cargs).bind fun vs => .ret (fn f vs)
-      refine ⟨[stage], ?_, fun ctx => ?_⟩
-      · rw [argString, printArg_stmt σ _ (by intro s h; cases h)]
-        have hin : Inner (stmtBody σ (.call f (a :: rest))) := by
-          simpa [argPiece, Piece.ok] using hpiece
-        obtain ⟨j, hj⟩ := compileF_braced g reg false hin
-        simp only [argStrings] at hsplit hc
-        rw [hj, close_call g reg false ('{' :: (stmtBody σ (.call f (a :: rest)) ++ ['}'])) j
-          ⟨[], [], stmtBody σ (.call f (a :: rest)), 0, 1⟩ f _ _ (pureBuilder (fn f)) cargs stage hsplit hreg.1 hc rfl]
-        simp [finishC]
-      · have hr : stage.run ctx = .ok (evalTree (envOf ctx fn) (.call f (a :: rest))) := by
-          show ((seqStages cargs).bind fun vs => .ret (fn f vs)).run ctx = _
-          rw [run_bind, hrun ctx]
-          simp only [evalTree]
-          rfl
-        have := run_single stage ctx
-        rw [this.1, this.2, hr]; exact ⟨rfl, rfl⟩
-theorem args_ok : ∀ (l : List C09.Expr) (σ : Style) (i fuel : Nat), AdmissibleArgs l → RegOkArgs reg fn l →
-    depthArgs l ≤ fuel →
-    ∃ cargs, compileArgs fuel reg false (argStrings σ i l) = .ok (cargs, []) ∧
-      ∀ ctx, (seqStages cargs).run ctx = .ok (evalArgs (envOf ctx fn) l)
-  | [], σ, i, fuel, _, _, _ => ⟨[], by rw [argStrings, compileArgs], fun ctx => rfl⟩
-  | a :: rest, σ, i, fuel, ha, hreg, hd => by
-    simp only [AdmissibleArgs] at ha
-    simp only [RegOkArgs] at hreg
-    simp only [depthArgs] at hd
-    obtain ⟨stages, h1, r1⟩ := arg_ok a (σ.child i) fuel ha.1 hreg.1 (by omega)
-    obtain ⟨cargs, h2, r2⟩ := args_ok rest σ (i + 1) fuel ha.2 hreg.2 (by omega)
-    refine ⟨joinStages stages :: cargs, ?_, fun ctx => ?_⟩
-    · rw [argStrings, compileArgs, h1]
-      simp only []
-      rw [h2]
-      simp
-    · simp only [evalArgs]
-      exact run_seq_cons _ _ ctx _ _ (r1 ctx).1 (r2 ctx)
-end
 
 end
 
